@@ -222,13 +222,18 @@ def write_hash_list(hash_list: MHLHashList, file_path: str):
     except BaseException:
         # e.g. a file name that cannot be stored in XML: remove the incomplete temporary file (and the folder if
         # it was only created for this file), otherwise later runs find a folder without a readable history
-        try:
-            os.remove(file_path + ".tmp")
-            if not directory_existed:
-                os.rmdir(directory_path)
-        except OSError:
-            pass
+        for cleanup, path in ((os.remove, _temporary_path(file_path)), (os.rmdir, None if directory_existed else directory_path)):
+            try:
+                if path is not None:
+                    cleanup(path)
+            except OSError:
+                pass
         raise
+
+
+def _temporary_path(file_path: str):
+    # not longer than the final name: a folder name that just fits into a manifest name must fit here, too
+    return os.path.splitext(file_path)[0] + ".tmp"
 
 
 def _write_hash_list(hash_list: MHLHashList, file_path: str):
@@ -244,7 +249,7 @@ def _write_hash_list(hash_list: MHLHashList, file_path: str):
 
     # write to a temporary file first and give it its final name only once it is complete, so an interrupted
     # run never leaves a partial file behind that would be picked up as a generation of the history
-    temp_file_path = file_path + ".tmp"
+    temp_file_path = _temporary_path(file_path)
     file = open(temp_file_path, "wb")
     file.write(b'<?xml version="1.0" encoding="UTF-8"?>\n<hashlist version="2.0" xmlns="urn:ASC:MHL:v2.0">\n')
     current_indent = "  "
